@@ -143,6 +143,7 @@ int Kernel::sys_open(const char *path, int flags, int mode) {
   Walk w = walk(ps); e.path = w.canon;
   if (flt) { if (flt->kind == "error") FAIL_INJECTED(e, "meta_error") }
   auto fail = [&](int err) { e.ret = -1; e.err = err; emit(e); errno = err; return -1; };
+  if ((flags & O_CREAT) && ps.size() > 1 && ps.back() == '/' && (!w.err || w.err == ENOTDIR)) return fail(EISDIR);   // Linux: O_CREAT with a trailing slash
   if (w.err) return fail(w.err);
   Inode *i = w.ino;
   if (!i) {
@@ -213,6 +214,7 @@ ssize_t Kernel::sys_read(int fd, void *buf, size_t n) {
   if (!of) return fail(EBADF);
   e.path = of->path; e.ino = of->ino; e.pipe = of->pipe;
   if ((of->flags & O_ACCMODE) == O_WRONLY) return fail(EBADF);
+  if (n == 0 && of->kind != O_DIRFD) { e.ret = 0; emit(e); return 0; }   // a zero-length read returns at once
   if (flt) {
     if (flt->kind == "error") FAIL_INJECTED(e, "io_error_read")
     if (flt->kind == "eintr") { note_fault("eintr"); e.injected = true; return fail(EINTR); }
@@ -281,6 +283,7 @@ ssize_t Kernel::sys_write(int fd, const void *buf, size_t n) {
   if (!of) return fail(EBADF);
   e.path = of->path; e.ino = of->ino; e.pipe = of->kind == O_SOCK ? of->tx : of->pipe;
   if ((of->flags & O_ACCMODE) == O_RDONLY && of->kind != O_SOCK) return fail(EBADF);
+  if (n == 0 && of->kind != O_FILE) { e.ret = 0; emit(e); return 0; }   // a zero-length write to a pipe or socket never blocks and never fails
   size_t limit = n;
   if (flt) {
     if (flt->kind == "error") {
@@ -386,6 +389,7 @@ int Kernel::sys_fsync(int fd) {
   if (!of) { e.ret = -1; e.err = EBADF; emit(e); errno = EBADF; return -1; }
   e.path = of->path; e.ino = of->ino;
   if (flt && flt->kind == "error") FAIL_INJECTED(e, "fsync_error")
+  if (of->kind == O_DIRFD) { e.ret = 0; emit(e); return 0; }   // directory operations are synchronous in this model: nothing to do
   if (of->kind != O_FILE) { e.ret = -1; e.err = EINVAL; emit(e); errno = EINVAL; return -1; }
   of->ino->synced = of->ino->data; of->ino->unsynced.clear();
   e.ret = 0; emit(e);
@@ -397,7 +401,8 @@ int Kernel::sys_ftruncate(int fd, off_t len) {
   ENTER(C_FTRUNCATE, of0 ? of0->path : "");
   OFile *of = get_of(fd);
   Event e; e.call = C_FTRUNCATE; e.fd = fd; e.a = len;
-  if (!of || of->kind != O_FILE) { e.ret = -1; e.err = EBADF; emit(e); errno = EBADF; return -1; }
+  if (!of) { e.ret = -1; e.err = EBADF; emit(e); errno = EBADF; return -1; }
+  if (of->kind != O_FILE || (of->flags & O_ACCMODE) == O_RDONLY || len < 0) { e.ret = -1; e.err = EINVAL; emit(e); errno = EINVAL; return -1; }   // Linux: not a regular file open for writing
   e.path = of->path; e.ino = of->ino;
   if (flt && flt->kind == "error") FAIL_INJECTED(e, "meta_error")
   Inode *i = of->ino; size_t L = (size_t)len;
@@ -448,8 +453,14 @@ int Kernel::sys_rename(const char *a, const char *b) {
   Walk wa = walk(as), wb = walk(bs); e.path = wa.canon; e.path2 = wb.canon;
   if (flt && flt->kind == "error") FAIL_INJECTED(e, "meta_error")
   int err = 0;
-  if (wa.err) err = wa.err; else if (!wa.ino) err = ENOENT; else if (wb.err) err = wb.err;
+  // Linux resolves both parent directories before it looks at either last component
+  if (wa.err && !wa.dir) err = wa.err; else if (wb.err && !wb.dir) err = wb.err;
+  else if (wa.err) err = wa.err; else if (!wa.ino) err = ENOENT; else if (wb.err) err = wb.err;
+  else if (wa.ino == wb.ino) err = 0;   // same file: nothing to do
+  else if ([&] { if (wa.ino->type != T_DIR) return false; for (Inode *d = wb.dir; d; d = (d == root || !inodes.count(d->parent)) ? nullptr : inodes[d->parent]) if (d == wa.ino) return true; return false; }()) err = EINVAL;   // into its own subtree
+  else if ([&] { if (!wb.ino) return false; for (Inode *d = wa.dir; d; d = (d == root || !inodes.count(d->parent)) ? nullptr : inodes[d->parent]) if (d == wb.ino) return true; return false; }()) err = ENOTEMPTY;   // onto one of its ancestors
   else if (wb.ino && wb.ino->type == T_DIR && wa.ino->type != T_DIR) err = EISDIR;
+  else if (wb.ino && wb.ino->type != T_DIR && wa.ino->type == T_DIR) err = ENOTDIR;
   else if (wb.ino && wb.ino->type == T_DIR && !wb.ino->ents.empty()) err = ENOTEMPTY;
   if (err) { e.ret = -1; e.err = err; emit(e); errno = err; return -1; }
   if (wa.ino == wb.ino) { e.ret = 0; emit(e); return 0; }
@@ -484,6 +495,7 @@ int Kernel::sys_mkdir(const char *p, int mode) {
   Walk w = walk(ps); e.path = w.canon;
   if (flt && flt->kind == "error") FAIL_INJECTED(e, "meta_error")
   int err = w.err ? w.err : (w.ino ? EEXIST : 0);
+  if (w.err == ENOTDIR && w.ino) err = EEXIST;   // "name/" where name exists and is no directory
   if (err) { e.ret = -1; e.err = err; emit(e); errno = err; return -1; }
   Proc *pr = cp();
   Inode *n = new_inode(T_DIR, (uint32_t)mode & ~pr->umask_ & 07777, pr->euid, pr->egid);
@@ -624,7 +636,8 @@ int Kernel::sys_pipe(int fds[2]) {
 bool Kernel::readable(OFile *of) {
   switch (of->kind) {
     case O_FILE: case O_NULL: case O_DIRFD: return true;
-    case O_SINK: case O_PIPE_W: return false;
+    case O_SINK: return false;
+    case O_PIPE_W: return of->pipe && of->pipe->readers == 0;   // select reports the error condition of a write end without readers as readable too
     case O_PIPE_R: {
       Pipe *p = of->pipe;
       if (p->avail() > 0) return true;
@@ -637,8 +650,8 @@ bool Kernel::readable(OFile *of) {
 }
 bool Kernel::writable(OFile *of) {
   switch (of->kind) {
-    case O_FILE: case O_NULL: case O_SINK: return true;
-    case O_PIPE_R: case O_DIRFD: return false;
+    case O_FILE: case O_NULL: case O_SINK: case O_DIRFD: return true;
+    case O_PIPE_R: return false;
     case O_PIPE_W: { Pipe *p = of->pipe; return p->readers == 0 || p->space() >= std::min(knobs.pipe_buf, p->cap); }
     case O_SOCK:
       if (of->sock_state == 1) return clock >= of->sock_ready_at;
